@@ -19,8 +19,9 @@ import warnings
 from asyncio.coroutines import iscoroutine, iscoroutinefunction
 from asyncio.exceptions import CancelledError
 from asyncio.locks import Event, Semaphore
-from asyncio.tasks import Task, create_task, gather
+from asyncio.tasks import Task, create_task, current_task, gather
 from contextlib import suppress
+from functools import partial
 from inspect import CORO_CREATED, getcoroutinestate
 from math import inf
 from typing import (
@@ -465,8 +466,25 @@ class BaseTaskPool:
         """
         if getcoroutinestate(task.get_coro()) == CORO_CREATED:
             self._cancel_on_start[task_id] = kw
+        elif task is self._current_task():
+            # A task cancelling itself from its own code is running, not
+            # suspended: `Task.cancel()` would merely mark it, and if it then
+            # finishes without suspending again, it ends up in the cancelled
+            # state although its wrapper ran to completion (making `gather` in
+            # `flush`/`gather_and_close` raise `CancelledError`). Deliver the
+            # request in the next loop iteration instead; by then the task has
+            # either suspended or is done.
+            task.get_loop().call_soon(partial(task.cancel, **kw))
         else:
             task.cancel(**kw)
+
+    @staticmethod
+    def _current_task() -> Task[Any] | None:
+        """Returns the task running right now, if any."""
+        try:
+            return current_task()
+        except RuntimeError:  # no running event loop
+            return None
 
     def _get_running_task(self, task_id: int) -> Task[Any]:
         """
